@@ -38,7 +38,10 @@ def boundary_scripts():
           ("arrays-deep", "return " + "[" * d + "]" * d + "\n"), ("maps-deep", "return " + "{a:" * d + "1" + "}" * d + "\n"),
           ("unary-deep", "return " + "- " * d + "1\n"), ("funcs-deep", "return " + "func() { return " * (d // 4) + "1" + " }" * (d // 4) + "\n"),
           ("calls-deep", "f := func(x) { return x }\nreturn " + "f(" * d + "1" + ")" * d + "\n"), ("index-deep", "a := [0]\nreturn " + "a[" * d + "0" + "]" * d + "\n"),
-          ("cond-deep", "return " + "true ? 1 : " * d + "2\n"), ("parens-open", "return " + "(" * d + "\n"), ("braces-open", "{" * d + "\n")]
+          ("cond-deep", "return " + "true ? 1 : " * d + "2\n"),
+          # chains that the parser builds in a loop: the tree is as deep as the chain is long
+          ("operator-chain", "global a\nx := a" + "+a" * d + "\n"), ("call-chain", "global a\na" + "()" * d + "\n"),
+          ("selector-chain", "global a\nreturn a" + ".b" * d + "\n"), ("index-chain", "global a\nreturn a" + "[0]" * d + "\n"), ("logical-chain", "global a\nreturn a" + " && a || a" * (d // 2) + "\n"), ("parens-open", "return " + "(" * d + "\n"), ("braces-open", "{" * d + "\n")]
     # scripts over the symbol table left by the setup script of the "reuse" mode (local zz, global gg, function yy)
     S += [("reuse-global", "return gg\n"), ("reuse-global-fn", "f := func() { return gg }\nreturn f()\n"), ("reuse-global-set", "gg = 3\nreturn [gg, \"s\"]\n"),
           ("reuse-local", "return zz\n"), ("reuse-fn", "return yy()\n"), ("reuse-global-decl", "global gg\nreturn gg\n")]
@@ -63,6 +66,9 @@ def boundary_scripts():
         S.append(("catch-%d" % n, "try { throw 1 } catch %s { return 2 }\nreturn 1\n" % ids))
         S.append(("return-%d" % n, "return %s\n" % ids))
         S.append(("import-%d" % n, "return import(%s)\n" % ", ".join('"m1"' for _ in range(n))))
+    # conditions the optimizer decides, with branches it cannot fold (the rewrite of the condition must not count as progress for ever)
+    S += [("cond-literal", "a := 1\nb := 2\nx := true ? a : b\nreturn x\n"), ("cond-folded", "f := func() { return 1 }\nreturn (1 == 1) ? f() : 0\n"),
+          ("if-literal", "a := 1\nif 0 { a = 2 } else if \"s\" { a = 3 }\nreturn a\n"), ("cond-nested", "p := 1\nreturn 1 ? (0 ? p : (\"\" ? p : p + 1)) : p\n")]
     S += [("rem0", "return 1 % 0\n"), ("rem00", "return 0%0\n"), ("shlneg", "return 1 << -1\n"), ("const-paren-brace", "const(}"),
           ("var-paren-brace", "var(}"), ("param-paren-brace", "param(}"), ("const-x", "const(x=1}"), ("global-paren", "global(}"),
           ("cyclic", "return import(\"c1\")\n"), ("self-import", "return import(\"s1\")\n"), ("unknown-import", "return import(\"nope\")\n")]
@@ -117,7 +123,7 @@ def mutate_src(rng, src):
 
 def run(rep, br, proofs, rng, tier):
     cases = []
-    flags_all = ["noopt", "opt", "lim1", "lim3"]
+    flags_all = ["noopt", "opt", "lim1", "lim3", "lim1099511627776"]      # optimizer budgets: off, default, 1, 3, 2^40
     modes = ["batch", "eval", "reuse", "evalfail", "evalfail2"]
     mods = [hexs(m.encode()) for m in MODS]
     # boundary enumeration x configurations
@@ -225,7 +231,7 @@ def run(rep, br, proofs, rng, tier):
     okc = sum(v for k, v in classes.items() if k == "ok")
     rep.coverage.update({
         "evaluations": len(cases) + lexcount, "short_strings_compiled": lexcount, "distinct_nontrivial": len(set(c["line"].split(" ", 3)[3] for c in cases)),
-        "rule": "boundary scripts at every operand-width limit (255/256/257 locals, parameters, destructured names, 254..257 call arguments and selectors, 65535..65537 literal elements / constants, deep nesting incl. one million levels of every bracketing construct, constant errors, unterminated declaration groups, import cycles of length 1-4, unknown imports, every list of names or expressions (for-in, :=, =, var, global, catch, return, import) with 0..5 elements, a name bound again by every binding form) x optimizer off/on/budget 1/3 x trace x fresh / re-used symbol table / Eval fragment; generated valid and mutated near-valid programs; token soup and arbitrary byte strings; every byte string up to length %d over the 13 lexically significant bytes (/ * CR LF ` \" ' \\ a 0 . space); every successful Bytecode is checked function by function by the Coq validator wf_function; distinct = distinct (configuration, source)" % (5 if tier == "quick" else 6),
+        "rule": "boundary scripts at every operand-width limit (255/256/257 locals, parameters, destructured names, 254..257 call arguments and selectors, 65535..65537 literal elements / constants, deep nesting incl. one million levels of every bracketing construct and chains of a million operators, calls, selectors and indexes, constant errors, unterminated declaration groups, import cycles of length 1-4, unknown imports, every list of names or expressions (for-in, :=, =, var, global, catch, return, import) with 0..5 elements, a name bound again by every binding form) x optimizer off/on/budget 1/3/2^40 x trace x fresh / re-used symbol table / Eval fragment; generated valid and mutated near-valid programs; token soup and arbitrary byte strings; every byte string up to length %d over the 13 lexically significant bytes (/ * CR LF ` \" ' \\ a 0 . space); every successful Bytecode is checked function by function by the Coq validator wf_function; distinct = distinct (configuration, source)" % (5 if tier == "quick" else 6),
         "samples": [cases[0]["line"][:200], cases[len(cases)//2]["line"][:300], cases[-1]["line"][:200]],
         "outcome_classes": classes, "functions_validated": len(wfcases), "functions_rejected_by_validator": len(bad_wf),
         "hangs_or_crashes": len(culprits), "oracle_failures": len(fails)})
